@@ -163,6 +163,64 @@ class Unit:
         return f"<Unit {self.fi.qualname}>"
 
 
+def _exception_class_name(flow: "Flow | None", u: Unit, name: str) -> str:
+    """a dotted name used as an exception class: its last part when it is a builtin exception or a class of the package,
+    "?<name>" otherwise (a function, a variable of an enclosing scope ...)."""
+    import builtins
+
+    last = name.rsplit(".", 1)[-1]
+    b = getattr(builtins, name, None)
+    if isinstance(b, type) and issubclass(b, BaseException):
+        return last
+    if flow is not None:
+        fq = flow.repo.resolve(flow.module, name) or ""
+        if fq.startswith("builtins."):
+            return "?" + name
+        head = name.split(".", 1)[0]
+        if head in flow.module.functions or (head in flow.module.assigns and head not in flow.module.classes):
+            return "?" + name
+        o = u.outer
+        while o is not None:
+            if Flow._binds(o, head):
+                return "?" + name
+            o = o.outer
+    return last
+
+
+def raised_class(u: Unit, a: ast.Raise, flow: "Flow | None" = None) -> str | None:
+    """name of the exception class an explicit `raise` raises - also when the instance (or class) was first put into a
+    local name, or is built by a helper of the module (`raise _unbound_error()`); None for a bare re-raise; "?<text>" when
+    it cannot be told (a parameter, a computed value)."""
+
+    def of(e: ast.AST, unit: Unit, depth: int) -> str:
+        if isinstance(e, ast.Call):
+            if flow is not None and depth < 3:
+                callees = flow.callees(e, unit)
+                if callees:
+                    names: set[str] = set()
+                    for cu, _ in callees:
+                        rets = [n for n in cu.walk() if isinstance(n, ast.Return) and n.value is not None]
+                        if not rets:
+                            return "?" + norm(e.func)
+                        names |= {of(r.value, cu, depth + 1) for r in rets}  # type: ignore[arg-type]
+                    return names.pop() if len(names) == 1 else "?" + norm(e.func)
+            e = e.func
+        if isinstance(e, ast.Name):
+            node = unit.cfg.node_of(e)
+            defs = unit.rd.reaching(node, e.id) if node is not None else frozenset()
+            if defs:
+                if depth < 3 and all(d.kind in ("assign", "walrus") and d.index is None and d.value is not None for d in defs):
+                    names = {of(d.value, unit, depth + 1) for d in defs}  # type: ignore[arg-type]
+                    if len(names) == 1:
+                        return names.pop()
+                return "?" + e.id
+            return _exception_class_name(flow, unit, e.id)
+        d = dotted(e)
+        return _exception_class_name(flow, unit, d) if d else "?"
+
+    return None if a.exc is None else of(a.exc, u, 0)
+
+
 class Flow:
     def __init__(self, repo: Repo, module: Module, slots: set[str]):
         self.repo = repo
@@ -298,6 +356,37 @@ class Flow:
         if len(kinds) == 1:
             return kinds.pop()
         return None
+
+    def default_wrong(self, e: ast.AST | None, unit: Unit, owner: t.Any = None, depth: int = 0) -> bool:
+        """e certainly does not evaluate to an empty container: a constant (None ...), a non-empty display, or a local
+        name / helper parameter that some definition / call site feeds with one.  (``default_kind`` None and this False:
+        the expression is not understood.)"""
+        if isinstance(e, ast.Constant):
+            return True
+        if isinstance(e, (ast.List, ast.Tuple, ast.Set)):
+            return bool(e.elts)
+        if isinstance(e, ast.Dict):
+            return bool(e.keys)
+        if isinstance(e, (ast.JoinedStr, ast.Lambda, ast.GeneratorExp)):
+            return True
+        if isinstance(e, ast.NamedExpr):
+            return self.default_wrong(e.value, unit, owner, depth)
+        if not isinstance(e, ast.Name) or depth > 3:
+            return False
+        node = unit.cfg.node_of(e)
+        for d in (unit.rd.reaching(node, e.id) if node is not None else ()):
+            if d.kind in ("assign", "walrus") and d.index is None and d.value is not None:
+                if self.default_wrong(d.value, unit, owner, depth + 1):
+                    return True
+            elif d.kind == "param":
+                sites = [s for s in self.call_sites(unit) if owner is None or s[0].cls is owner] or self.call_sites(unit)
+                for cu, call, off in sites:
+                    how, arg = self.site_arg(unit, d.name, call, off)
+                    if how == "arg" and self.default_wrong(arg, cu, owner, depth + 1):
+                        return True
+                    if how == "default" and (arg is None or self.default_wrong(arg, unit, owner, depth + 1)):
+                        return True
+        return False
 
     def storage_method(self, c: ast.Call, unit: Unit) -> str | None:
         """name of the ContextVar method a call invokes on a storage slot (directly or through a bound-method alias)."""
@@ -527,6 +616,23 @@ class Flow:
                 tg = getattr(d.target, "_parent", None)
                 if isinstance(tg, (ast.Tuple, ast.List)) and len(tg.elts) == len(v.elts) and not any(isinstance(x, ast.Starred) for x in tg.elts):
                     return self.tags(v.elts[d.index], unit)
+            # `a, b = helper(...)`: a helper of the module whose every return is a tuple display of that arity
+            tg = getattr(d.target, "_parent", None)
+            if isinstance(v, ast.Call) and d.index is not None and isinstance(tg, (ast.Tuple, ast.List)) and not any(isinstance(x, ast.Starred) for x in tg.elts):
+                callees = self.callees(v, unit)
+                parts: list[tuple[Unit, ast.AST]] = []
+                for cu, _ in callees:
+                    rets = [n for n in cu.walk() if isinstance(n, ast.Return)]
+                    gen = any(isinstance(n, (ast.Yield, ast.YieldFrom)) for n in cu.walk()) or isinstance(cu.fi.node, ast.AsyncFunctionDef)
+                    if gen or not rets or not all(isinstance(r.value, ast.Tuple) and len(r.value.elts) == len(tg.elts) and not any(isinstance(x, ast.Starred) for x in r.value.elts) for r in rets):
+                        parts = []
+                        break
+                    parts += [(cu, r.value.elts[d.index]) for r in rets]  # type: ignore[union-attr]
+                if callees and parts:
+                    out: set[Tag] = set()
+                    for cu, e_ in parts:
+                        out |= self.tags(e_, cu)
+                    return out
             return {OTHER} | (shared(self.tags(v, unit)) if v is not None else set())
         if d.kind == "aug":
             prev = unit.rd.reaching(d.node, d.name) if d.node is not None else frozenset()
@@ -555,6 +661,15 @@ class Flow:
             u = unit.outer
             while u is not None:
                 if self._binds(u, f.id):
+                    # a free name that the enclosing function binds only by `def`: those nested functions
+                    ds = [d for dl in u.rd.gen.values() for d in dl if d.name == f.id]
+                    if f.id not in u.fi.params and ds and all(d.kind == "def" and isinstance(d.stmt, (ast.FunctionDef, ast.AsyncFunctionDef)) and id(d.stmt) in self.by_node for d in ds):
+                        out: list[tuple[Unit, int]] = []
+                        for d in ds:
+                            cu = self.by_node[id(d.stmt)]
+                            if not any(cu is x for x, _ in out):
+                                out.append((cu, 0))
+                        return out
                     return []
                 u = u.outer
             fi = self.module.functions.get(f.id)
@@ -647,6 +762,26 @@ class Outcome(t.NamedTuple):
     kind: str  # return | raise | uncaught
     node: Node
     detail: str | None  # returned expression text ("None" for none) / exception name
+    uncertain: bool = False  # reached only beyond a payload-dependent condition that could not be evaluated (or: a value that could not)
+
+
+class Sym:
+    """a value that is not known but has an identity: a module-level name (a sentinel object) - equal to itself."""
+
+    def __init__(self, name: str):
+        self.name = name
+
+    def __eq__(self, other: object) -> bool:
+        return isinstance(other, Sym) and other.name == self.name
+
+    def __hash__(self) -> int:
+        return hash(self.name)
+
+    def __repr__(self) -> str:
+        return f"<{self.name}>"
+
+
+ITER_WRAPPERS = {"reversed", "iter", "sorted", "enumerate", "list", "tuple", "set", "frozenset"}
 
 
 class EmptyRun:
@@ -669,7 +804,25 @@ class EmptyRun:
         self.outcomes: list[Outcome] = []
         self.stack = stack + (id(unit),)
         self._subs: dict[int, "EmptyRun | None"] = {}
-        self._run()
+        self._ev_active: set[int] = set()
+        self._dep_active: set[t.Any] = set()
+        # nodes the run can reach at all.  A definition made on a branch that the empty payload rules out does not reach
+        # the uses after the branch (`rv = None; if stack: rv = stack[-1]; return rv`): run, restrict the reaching
+        # definitions to the nodes visited, run again - the visited set only shrinks, so this ends.
+        self.feasible: set[int] | None = None
+        for _ in range(6):
+            self.decided = 0
+            self.outcomes = []
+            self._subs = {}
+            visited = self._run()
+            if self.feasible is not None and visited >= self.feasible:
+                break
+            self.feasible = visited if self.feasible is None else (visited & self.feasible)
+
+    def _live(self, defs: t.Iterable[Def], u: Unit) -> list[Def]:
+        if u is not self.unit or self.feasible is None:
+            return list(defs)
+        return [d for d in defs if d.node is None or d.node.id in self.feasible]
 
     # -- one level (at most two) of helper extraction ------------------------
     def sub(self, call: ast.Call) -> "EmptyRun | None":
@@ -738,7 +891,7 @@ class EmptyRun:
             node = u.cfg.node_of(e)
             if node is None:
                 return False
-            defs = u.rd.reaching(node, e.id)
+            defs = self._live(u.rd.reaching(node, e.id), u)
             return bool(defs) and all(self._def_empty(d, depth, u) for d in defs)
         return False
 
@@ -758,23 +911,181 @@ class EmptyRun:
             return True
         return False
 
+    def iter_empty(self, e: ast.AST | None, depth: int = 0) -> bool:
+        """iterating e yields nothing: the empty payload itself, a view / copy / re-ordering of it, a lazy wrapper around it."""
+        if e is None or depth > 6:
+            return False
+        if self.is_empty(e):
+            return True
+        if isinstance(e, ast.NamedExpr):
+            return self.iter_empty(e.value, depth + 1)
+        if isinstance(e, ast.Call):
+            f = e.func
+            if isinstance(f, ast.Attribute) and f.attr in ("items", "keys", "values") and not e.args:
+                return self.iter_empty(f.value, depth + 1)
+            if isinstance(f, ast.Name) and f.id in ITER_WRAPPERS and len(e.args) >= 1 and not self.flow._locally_bound(f.id, e, self.unit):
+                return self.iter_empty(e.args[0], depth + 1)
+            return False
+        if isinstance(e, ast.Subscript) and isinstance(e.slice, ast.Slice):
+            return self.iter_empty(e.value, depth + 1)
+        if isinstance(e, ast.Name):
+            node = self.unit.cfg.node_of(e)
+            defs = self.unit.rd.reaching(node, e.id) if node is not None else frozenset()
+            return bool(defs) and all(d.kind in ("assign", "walrus") and d.index is None and d.value is not None and self.iter_empty(d.value, depth + 1) for d in defs)
+        return False
+
+    def depends(self, e: ast.AST | None, unit: Unit | None = None, depth: int = 0) -> bool:
+        """may the value of e depend on the ContextVar payload?  (a read of the storage, a local name fed by one, a helper
+        of this module that reads it, a parameter that a call site feeds from it)"""
+        u = unit or self.unit
+        if e is None or depth > 6:
+            return e is not None
+        for n in [e, *walk_no_nested(e)]:
+            if isinstance(n, ast.Call):
+                if self.flow.storage_method(n, u) is not None:
+                    return True
+                for cu, _ in self.flow.callees(n, u):
+                    key = ("dep-unit", id(cu))
+                    if key in self._dep_active:
+                        continue
+                    self._dep_active.add(key)
+                    try:
+                        if any(isinstance(c, ast.Call) and self.flow.storage_method(c, cu) is not None for c in cu.walk()):
+                            return True
+                    finally:
+                        self._dep_active.discard(key)
+            elif isinstance(n, ast.Attribute) and self.flow.self_ref(n.value, u) and u.cls is not None:
+                _, what = self.flow.repo.lookup(u.cls, n.attr)
+                if isinstance(what, FuncInfo) and id(what.node) in self.flow.by_node:
+                    cu = self.flow.by_node[id(what.node)]
+                    if any(isinstance(c, ast.Call) and self.flow.storage_method(c, cu) is not None for c in cu.walk()):
+                        return True
+            elif isinstance(n, ast.Name) and isinstance(n.ctx, ast.Load):
+                node = u.cfg.node_of(n)
+                for d in (u.rd.reaching(node, n.id) if node is not None else ()):
+                    key = ("dep-def", id(d))
+                    if key in self._dep_active:
+                        continue
+                    self._dep_active.add(key)
+                    try:
+                        if d.kind == "param":
+                            for cu, call, off in self.flow.call_sites(u):
+                                how, arg = self.flow.site_arg(u, d.name, call, off)
+                                if how == "arg" and arg is not None and self.depends(arg, cu, depth + 1):
+                                    return True
+                        elif d.value is not None and self.depends(d.value, u, depth + 1):
+                            return True
+                    finally:
+                        self._dep_active.discard(key)
+        return False
+
+    def _name_value(self, e: ast.Name) -> t.Any:
+        U = self.UNKNOWN
+        u = self.unit
+        node = u.cfg.node_of(e)
+        if node is None or bound_in_enclosing_comp(e, u.fi.node) is not None:
+            return U
+        defs = u.rd.reaching(node, e.id)
+        if defs:
+            defs = frozenset(self._live(defs, u))
+            if not defs:
+                return U
+        if not defs:
+            # a free name that no enclosing function binds: a module-level object with an identity of its own (a sentinel)
+            o = u.outer
+            while o is not None:
+                if Flow._binds(o, e.id):
+                    return U
+                o = o.outer
+            if e.id in self.flow.module.assigns or e.id in self.flow.module.functions or e.id in self.flow.module.classes:
+                return Sym(e.id)
+            return U
+        vals: list[t.Any] = []
+        for d in defs:
+            if id(d) in self._ev_active:
+                return U
+            self._ev_active.add(id(d))
+            try:
+                if d.kind in ("assign", "walrus") and d.index is None and d.value is not None:
+                    v = self.ev(d.value)
+                elif d.kind == "unpack" and isinstance(d.value, (ast.Tuple, ast.List)) and d.index is not None and d.index < len(d.value.elts) and not any(isinstance(x, ast.Starred) for x in d.value.elts) \
+                        and isinstance(getattr(d.target, "_parent", None), (ast.Tuple, ast.List)) and len(getattr(d.target, "_parent").elts) == len(d.value.elts) \
+                        and not any(isinstance(x, ast.Starred) for x in getattr(d.target, "_parent").elts):
+                    v = self.ev(d.value.elts[d.index])
+                else:
+                    v = U
+            finally:
+                self._ev_active.discard(id(d))
+            if v is U:
+                return U
+            vals.append(v)
+        v0 = vals[0]
+        for w in vals[1:]:
+            if type(w) is not type(v0) or w != v0:
+                return U
+        return v0
+
     def ev(self, e: ast.AST) -> t.Any:
+        """value of e when the payload is empty, or UNKNOWN.  Small pure expressions only: constants, the empty container,
+        len / bool / not / comparisons / integer arithmetic over known values, conditional expressions, local names whose
+        every reaching definition has the same known value, `next(iter(<empty>), d)`, `<empty dict>.get(k, d)`, any/all over
+        nothing, helpers of this module whose abstract run returns one known value."""
         U = self.UNKNOWN
         if isinstance(e, ast.Constant):
             return e.value
+        if isinstance(e, ast.NamedExpr):
+            return self.ev(e.value)
         if self.is_empty(e):
             return [] if self.kind != "dict" else {}
-        if isinstance(e, ast.Call) and isinstance(e.func, ast.Name) and e.func.id == "len" and len(e.args) == 1 and self.is_empty(e.args[0]):
-            return 0
-        if isinstance(e, ast.Call) and isinstance(e.func, ast.Name) and e.func.id == "bool" and len(e.args) == 1:
-            v = self.ev(e.args[0])
-            return U if v is U else bool(v)
+        if isinstance(e, ast.Name):
+            return self._name_value(e)
+        if isinstance(e, ast.IfExp):
+            v = self.ev(e.test)
+            if v is U:
+                a, b = self.ev(e.body), self.ev(e.orelse)
+                return a if (a is not U and b is not U and type(a) is type(b) and a == b) else U
+            return self.ev(e.body if v else e.orelse)
+        if isinstance(e, ast.Call) and isinstance(e.func, ast.Name) and not e.keywords and not self.flow._locally_bound(e.func.id, e, self.unit):
+            fn = e.func.id
+            if fn == "len" and len(e.args) == 1:
+                if self.iter_empty(e.args[0]):
+                    return 0
+                v = self.ev(e.args[0])
+                return len(v) if isinstance(v, (list, dict, str, bytes, tuple)) else U
+            if fn == "bool" and len(e.args) == 1:
+                v = self.ev(e.args[0])
+                return U if v is U or isinstance(v, Sym) else bool(v)
+            if fn == "next" and len(e.args) == 2 and self.iter_empty(e.args[0]):
+                return self.ev(e.args[1])
+            if fn in ("any", "all") and len(e.args) == 1:
+                a0 = e.args[0]
+                if self.iter_empty(a0) or (isinstance(a0, (ast.GeneratorExp, ast.ListComp, ast.SetComp)) and self.iter_empty(a0.generators[0].iter)):
+                    return fn == "all"
+                return U
+        if isinstance(e, ast.Call) and isinstance(e.func, ast.Attribute) and e.func.attr in ("get", "pop") and self.kind == "dict" and not e.keywords \
+                and self.flow.storage_method(e, self.unit) is None and self.is_empty(e.func.value):
+            if len(e.args) == 2:
+                return self.ev(e.args[1])
+            if len(e.args) == 1 and e.func.attr == "get":
+                return None
+            return U
         if isinstance(e, ast.UnaryOp) and isinstance(e.op, ast.Not):
             v = self.ev(e.operand)
-            return U if v is U else (not v)
+            return U if v is U or isinstance(v, Sym) else (not v)
+        if isinstance(e, ast.UnaryOp) and isinstance(e.op, (ast.USub, ast.UAdd)):
+            v = self.ev(e.operand)
+            return (-v if isinstance(e.op, ast.USub) else v) if type(v) is int else U
+        if isinstance(e, ast.BinOp) and isinstance(e.op, (ast.Add, ast.Sub, ast.Mult, ast.FloorDiv, ast.Mod)):
+            a, b = self.ev(e.left), self.ev(e.right)
+            if type(a) is int and type(b) is int:
+                try:
+                    return {ast.Add: a.__add__, ast.Sub: a.__sub__, ast.Mult: a.__mul__, ast.FloorDiv: a.__floordiv__, ast.Mod: a.__mod__}[type(e.op)](b)
+                except ZeroDivisionError:
+                    return U
+            return U
         if isinstance(e, ast.Call):
             s = self.sub(e)
-            if s is not None and s.outcomes and all(o.kind == "return" for o in s.outcomes):
+            if s is not None and s.outcomes and all(o.kind == "return" and not o.uncertain for o in s.outcomes):
                 vals = []
                 for o in s.outcomes:
                     rv = o.node.ast.value if isinstance(o.node.ast, ast.Return) else None
@@ -789,7 +1100,7 @@ class EmptyRun:
             res: t.Any = U
             for v_ in e.values:
                 v = self.ev(v_)
-                if v is U:
+                if v is U or isinstance(v, Sym):
                     return U
                 res = v
                 if isinstance(e.op, ast.And) and not v:
@@ -800,11 +1111,15 @@ class EmptyRun:
         if isinstance(e, ast.Compare) and len(e.ops) == 1:
             op = e.ops[0]
             if isinstance(op, (ast.In, ast.NotIn)):
-                if self.is_empty(e.comparators[0]):
+                if self.iter_empty(e.comparators[0]):
                     return isinstance(op, ast.NotIn)
                 return U
             a, b = self.ev(e.left), self.ev(e.comparators[0])
             if a is U or b is U:
+                return U
+            if isinstance(a, Sym) or isinstance(b, Sym):
+                if isinstance(a, Sym) and isinstance(b, Sym) and a == b and isinstance(op, (ast.Is, ast.Eq, ast.IsNot, ast.NotEq)):
+                    return isinstance(op, (ast.Is, ast.Eq))
                 return U
             try:
                 if isinstance(op, ast.Eq):
@@ -838,7 +1153,7 @@ class EmptyRun:
                 continue
             if isinstance(n, ast.IfExp):
                 v = self.ev(n.test)
-                if v is not self.UNKNOWN:
+                if v is not self.UNKNOWN and not isinstance(v, Sym):
                     self.decided += 1
                     stack.append(n.test)
                     stack.append(n.body if v else n.orelse)
@@ -848,7 +1163,7 @@ class EmptyRun:
                 for v_ in n.values:
                     stack.append(v_)
                     v = self.ev(v_)
-                    if v is not self.UNKNOWN and ((isinstance(n.op, ast.And) and not v) or (isinstance(n.op, ast.Or) and v)):
+                    if v is not self.UNKNOWN and not isinstance(v, Sym) and ((isinstance(n.op, ast.And) and not v) or (isinstance(n.op, ast.Or) and v)):
                         self.decided += 1
                         break
                 continue
@@ -861,62 +1176,66 @@ class EmptyRun:
             stack.extend(ast.iter_child_nodes(n))
         return False
 
-    def _value(self, e: ast.AST | None) -> str:
-        """text of what a return yields: 'None' when it certainly is None."""
+    def _value(self, e: ast.AST | None) -> tuple[str, bool]:
+        """(text of what a return yields - 'None' when it certainly is None -, True when the value could not be worked out)."""
         if e is None:
-            return "None"
+            return "None", False
         if isinstance(e, ast.IfExp):
             v = self.ev(e.test)
-            if v is not self.UNKNOWN:
+            if v is not self.UNKNOWN and not isinstance(v, Sym):
                 return self._value(e.body if v else e.orelse)
         v = self.ev(e)
+        if v is not self.UNKNOWN and not isinstance(e, ast.Constant) and self.depends(e):
+            self.decided += 1  # the value itself was decided by the payload being empty
         if v is None:
-            return "None"
-        return norm(e)
+            return "None", False
+        return norm(e), v is self.UNKNOWN or isinstance(v, Sym)
 
     def _exc_targets(self, n: Node, exc: str | None) -> list[Node]:
         return [s for s, l in n.succs if l == "exc" and isinstance(s.ast, ast.ExceptHandler) and handler_catches(s.ast, exc)]
 
-    def _run(self) -> None:
+    def _run(self) -> set[int]:
         cfg = self.unit.cfg
-        seen: set[int] = set()
-        work = [cfg.entry]
+        U = self.UNKNOWN
+        seen: dict[int, bool] = {}  # node id -> visited as uncertain only?
+        work: list[tuple[Node, bool]] = [(cfg.entry, False)]
+
+        def push(nodes: t.Iterable[Node], unc: bool) -> None:
+            work.extend((s, unc) for s in nodes)
+
         while work:
-            n = work.pop()
-            if n.id in seen:
+            n, unc = work.pop()
+            if n.id in seen and (not seen[n.id] or unc):
                 continue
-            seen.add(n.id)
+            seen[n.id] = unc
             a = n.ast
             if n is cfg.exit or n is cfg.raise_exit:
                 continue
             if n.kind == "test":
                 if self._raising(a):
-                    self._raise(n, self.exc, work, implicit=True)
+                    self._raise(n, self.exc, work, implicit=True, unc=unc)
                     continue
                 v = self.ev(a)  # type: ignore[arg-type]
-                if v is not self.UNKNOWN:
+                if v is not U and not isinstance(v, Sym):
                     self.decided += 1
                     lab = "T" if v else "F"
-                    work.extend(s for s, l in n.succs if l == lab)
+                    push((s for s, l in n.succs if l == lab), unc)
                     continue
-                work.extend(s for s, l in n.succs if l != "exc")
+                push((s for s, l in n.succs if l != "exc"), unc or self.depends(a))
                 continue
             if n.kind == "loop" and isinstance(a, (ast.For, ast.AsyncFor)):
-                if self.is_empty(a.iter) or (isinstance(a.iter, ast.Call) and isinstance(a.iter.func, ast.Attribute) and a.iter.func.attr in ("items", "keys", "values") and self.is_empty(a.iter.func.value)):
+                if self.iter_empty(a.iter):
                     self.decided += 1
-                    work.extend(s for s, l in n.succs if l == "F")
+                    push((s for s, l in n.succs if l == "F"), unc)
                 else:
-                    work.extend(s for s, l in n.succs if l != "exc")
+                    push((s for s, l in n.succs if l != "exc"), unc or self.depends(a.iter))
                 continue
             if isinstance(a, ast.Raise):
-                name = None
-                if a.exc is not None:
-                    ex = a.exc.func if isinstance(a.exc, ast.Call) else a.exc
-                    name = (dotted(ex) or "?").rsplit(".", 1)[-1]
-                self._raise(n, name, work, implicit=False)
+                name = raised_class(self.unit, a, self.flow)
+                self._raise(n, name, work, implicit=False, unc=unc or (name or "").startswith("?"))
                 continue
             if n.kind == "stmt" and a is not None and not isinstance(a, (ast.FunctionDef, ast.AsyncFunctionDef, ast.ClassDef)) and self._raising(a):
-                self._raise(n, self.exc, work, implicit=True)
+                self._raise(n, self.exc, work, implicit=True, unc=unc)
                 continue
             if n.kind == "stmt" and a is not None and not isinstance(a, (ast.FunctionDef, ast.AsyncFunctionDef, ast.ClassDef)):
                 # helpers of this module called here: what they raise with an empty payload is raised here
@@ -925,20 +1244,30 @@ class EmptyRun:
                     self.decided += s_.decided
                     for o in s_.outcomes:
                         if o.kind in ("raise", "uncaught"):
-                            self._raise(n, o.detail, work, implicit=o.kind == "uncaught", count=False)
+                            self._raise(n, o.detail, work, implicit=o.kind == "uncaught", count=False, unc=unc or o.uncertain)
                     if not any(o.kind == "return" for o in s_.outcomes):
                         goes_on = False
                     elif isinstance(a, ast.Return) and self._through(a.value) is c_:
                         for o in s_.outcomes:
                             if o.kind == "return":
-                                self.outcomes.append(Outcome("return", n, o.detail))
+                                self.outcomes.append(Outcome("return", n, o.detail, unc or o.uncertain))
                         goes_on = False
                 if not goes_on:
                     continue
             if isinstance(a, ast.Return):
-                self.outcomes.append(Outcome("return", n, self._value(a.value)))
+                text, unknown = self._value(a.value)
+                self.outcomes.append(Outcome("return", n, text, unc or unknown))
                 continue
-            work.extend(s for s, l in n.succs if l != "exc")
+            push((s for s, l in n.succs if l != "exc"), unc)
+        # the same exit reached with and without doubt: the certain visit counts
+        certain = {(o.kind, o.node.id, o.detail) for o in self.outcomes if not o.uncertain}
+        uniq: list[Outcome] = []
+        for o in self.outcomes:
+            if (o.uncertain and (o.kind, o.node.id, o.detail) in certain) or o in uniq:
+                continue
+            uniq.append(o)
+        self.outcomes = uniq
+        return set(seen)
 
     @staticmethod
     def _through(e: ast.AST | None) -> ast.AST | None:
@@ -947,14 +1276,14 @@ class EmptyRun:
             e = e.args[1]
         return e
 
-    def _raise(self, n: Node, exc: str | None, work: list[Node], implicit: bool, count: bool = True) -> None:
+    def _raise(self, n: Node, exc: str | None, work: list[tuple[Node, bool]], implicit: bool, count: bool = True, unc: bool = False) -> None:
         hs = self._exc_targets(n, exc)
         if hs:
             if implicit and count:
                 self.decided += 1
-            work.extend(hs[:1])
+            work.append((hs[0], unc))
         else:
-            self.outcomes.append(Outcome("uncaught" if implicit else "raise", n, exc))
+            self.outcomes.append(Outcome("uncaught" if implicit else "raise", n, exc, unc))
 
     def summary(self) -> str:
-        return "; ".join(f"{o.kind} {o.detail} (L{o.node.lineno})" for o in self.outcomes) or "no exit reached"
+        return "; ".join(f"{o.kind} {o.detail} (L{o.node.lineno}{', unsure' if o.uncertain else ''})" for o in self.outcomes) or "no exit reached"
